@@ -135,6 +135,15 @@ CHECKS = {
         note='Trusted: TLC, BigInteger rationals (Rat.java), projection of floats by as_integer_ratio. Continuous inputs are '
              'sampled by seed; exhaustive only for the small integer domains of the cfg.',
         tech='TLA+ spec (Schedule.tla) model-checked with TLC; TLC-generated vectors replayed into code; TLC trace validation of recorded runs'),
+    'C17': dict(
+        cat='model_checking', ref='DESIGN.md section 5 C17',
+        text='HipRa.tla states the volumetric cascade of HIP_RA_X.Calculate in statement order (water-property values as free constants) and '
+             'TLC checks over small rationals that the volume fractions, stored = rock + fluid, available <= stored, producible <= available '
+             'and exact proportionality of every extensive result to area and to thickness follow from it; the real HIP_RA_X is driven '
+             'directly on seeded inputs over the declared ranges (provided vs derived depth / pressure / density / heat capacity), single-run '
+             'clauses validated by TraceHipRa.tla, area and thickness ladders {0.1, 0.5, 2, 10} and unit variants by TraceRelation.tla.',
+        note='Water-property look-ups stay in the code. Relations to 1e-9 relative. Inputs sampled by seed (quick 150 bases, ~1500 runs).',
+        tech='TLA+ spec (HipRa.tla) model-checked with TLC; TLC validation of real runs and run ladders (TraceHipRa.tla, TraceRelation.tla)'),
     'C18': dict(
         cat='model_checking', ref='DESIGN.md section 5 C18',
         text='Monotonicity lemmas are model-checked: Resource.tla (bottom-hole temperature monotone in depth and in every gradient for all small '
@@ -144,6 +153,16 @@ CHECKS = {
              'flow, well cost / depth for each correlation, NPV and levelized costs / 31 cost inputs and adjustment factors.',
         note='Known findings: gradient ladder crossing 1.0 (unit heuristic); drawdown ladder in the regime Trock <= Tinj. Ladders sampled by seed.',
         tech='TLA+ lemmas model-checked with TLC (Resource, WellCost, Levelized); TLC validation of real run ladders (TraceRelation.tla)'),
+    'C19': dict(
+        cat='model_checking', ref='DESIGN.md section 5 C19',
+        text='Pipeline.tla models the class-selection ladder of Model.__init__ / read_parameters and the stage order; TLC enumerates all 12 000 '
+             'configurations (reservoir model x Is AGS x economic model x plant type x end-use x add-ons x S-DAC-GT), each is confirmed on '
+             'the real Model() + read_parameters (same classes, same failing combinations), yielding the reachable module classes; the '
+             'generated schemas, the committed files and the live ParameterDicts are then validated by TraceSchema.tla: schema names = union '
+             'of accepted names (offenders named), type/default/unit/bounds of identically defined parameters = live declarations (exact), '
+             'committed = generated, every result-schema field extractable by the real client (synthetic one-field reports). Also HIP-RA-X.',
+        note='Finite and complete in both tiers. Known findings: Maximum Drawdown maximum, two enum defaults serialised as empty strings.',
+        tech='TLA+ spec (Pipeline.tla) model-checked with TLC and confirmed configuration by configuration on the code; TLC set/attribute validation (TraceSchema.tla)'),
     'C20': dict(
         cat='model_checking', ref='DESIGN.md section 5 C20',
         text='Entry.tla (4 entry points x 3 output-argument kinds x 2 start directories x ok / fail-at-read / fail-at-calculate, OutPath '
